@@ -25,6 +25,10 @@ sys.setrecursionlimit(10000)
 from pyvc import contracts as C            # noqa: E402
 
 KNOWN = os.path.join(VERIF, "known_findings.txt")
+# evidence/ and replays/ normally live in /verif; runs against a scratch copy
+# of the package (selftest mutants, seeded changes) write them elsewhere so
+# that the evidence of /repo's own tree is never overwritten
+OUT = os.environ.get("PYVC_OUT") or VERIF
 REPLAY_PY = "/venv/bin/python"
 MAX_REPLAYS = int(os.environ.get("PYVC_MAX_REPLAYS", "4"))
 
@@ -324,10 +328,10 @@ def report(a, seed, cons, results, extra, t_start):
     for k in known_hit:
         print(f"KNOWN-FINDING: property={pid} {k['key']} {k['what']}")
     vio_lines = []
-    os.makedirs(os.path.join(VERIF, "replays", pid), exist_ok=True)
+    os.makedirs(os.path.join(OUT, "replays", pid), exist_ok=True)
     pending = []
     for r, o, ident in violations:
-        path = os.path.join(VERIF, "replays", pid, re.sub(
+        path = os.path.join(OUT, "replays", pid, re.sub(
             r"[^A-Za-z0-9_.#@-]", "_", ident) + ".json")
         rec = {"property": pid, "obligation": ident,
                "function": r["func"] if r else o.get("function"),
@@ -425,8 +429,8 @@ def report(a, seed, cons, results, extra, t_start):
     }
     if errors:
         ev["coverage"]["errors"] = errors[:20]
-    os.makedirs(os.path.join(VERIF, "evidence"), exist_ok=True)
-    with open(os.path.join(VERIF, "evidence", f"{pid}.json"), "w") as fh:
+    os.makedirs(os.path.join(OUT, "evidence"), exist_ok=True)
+    with open(os.path.join(OUT, "evidence", f"{pid}.json"), "w") as fh:
         json.dump(ev, fh, indent=1, default=str)
     print(f"[{pid}] tier={a.tier} functions={len(funcs)} obligations={obls} "
           f"discharged={discharged} refuted={len(refuted)} "
